@@ -115,7 +115,8 @@ def gen_domain_spec(rng, finite_only=False, small=False):
     kinds = ["randint", "lograndint", "choice", "ordinal", "finrange", "logfinrange", "qrandint",
              "single_choice", "single_randint", "single_finrange"]
     if not finite_only:
-        kinds += ["uniform", "loguniform", "quniform", "single_uniform", "uniform", "loguniform"]
+        kinds += ["uniform", "loguniform", "quniform", "single_uniform", "uniform", "loguniform",
+                  "loguniform_odd", "uniform_odd", "reverseloguniform"]
     k = rng.choice(kinds)
     if k == "uniform":
         lo = rng.choice([0.0, -1.5, 0.25, 10.0])
@@ -123,6 +124,12 @@ def gen_domain_spec(rng, finite_only=False, small=False):
     if k == "loguniform":
         lo = rng.choice([1e-4, 0.01, 1.0])
         return [k, lo, lo * rng.choice([10.0, 1000.0])]
+    if k == "loguniform_odd":        # bounds b with exp(log(b)) != b
+        return ["loguniform"] + rng.choice([[1e-6, 0.1], [1e-5, 1e-2], [0.3, 30.0], [1e-2, 0.3]])
+    if k == "uniform_odd":
+        return ["uniform"] + rng.choice([[0.1, 0.7], [0.3, 0.9], [1e-2, 0.3]])
+    if k == "reverseloguniform":
+        return [k] + rng.choice([[0.1, 0.9], [0.0, 0.99], [0.3, 0.999]])
     if k == "randint":
         lo = rng.choice([0, -3, 1, 5])
         return [k, lo, lo + (rng.randint(1, 3) if small else rng.randint(1, 12))]
@@ -160,7 +167,7 @@ def gen_domain_spec(rng, finite_only=False, small=False):
 def build_domain(spec):
     from syne_tune import config_space as cs
     k = spec[0]
-    if k in ("uniform", "loguniform", "randint", "lograndint"):
+    if k in ("uniform", "loguniform", "randint", "lograndint", "reverseloguniform"):
         return getattr(cs, k)(spec[1], spec[2])
     if k == "choice":
         return cs.choice(list(spec[1]))
@@ -235,7 +242,8 @@ def gen_points(rng, spec, space, retype=False):
     """partial / duplicate / empty / None points_to_evaluate; with [retype], some values are tagged to be
     replaced by equal values of another type"""
     from syne_tune.config_space import Domain
-    mode = rng.choice(["none", "empty", "some", "some", "dups"])
+    from syne_tune.config_space import Float, Integer
+    mode = rng.choice(["none", "empty", "some", "some", "dups", "bounds"])
     if mode == "none":
         return None
     if mode == "empty":
@@ -245,7 +253,9 @@ def gen_points(rng, spec, space, retype=False):
     for _ in range(rng.randint(1, 4)):
         pt = {}
         for nm in hp:
-            if rng.random() < 0.6:
+            if mode == "bounds" and isinstance(space[nm], (Float, Integer)) and rng.random() < 0.85:
+                pt[nm] = rng.choice([space[nm].lower, space[nm].upper])     # exactly ON a domain bound
+            elif rng.random() < 0.6:
                 v = space[nm].sample(random_state=np.random.RandomState(rng.randrange(10 ** 6)))
                 pt[nm] = v.item() if hasattr(v, "item") else v
         pts.append(pt)
@@ -590,6 +600,45 @@ def run_gs_case(ctx, case):
 # --------------------------------------------------------------------------
 # 3. schedulers: checker on every suggestion
 # --------------------------------------------------------------------------
+def gen_metrics(rng, n, nonfinite=0.0):
+    """metric values; non-finite ones are stored as strings ('nan', 'inf', '-inf') to stay JSON-able"""
+    return [rng.choice(["nan", "inf", "-inf"]) if rng.random() < nonfinite else round(rng.uniform(0, 1), 3)
+            for _ in range(n)]
+
+
+def corner_of_box(hp_ranges, seed):
+    """what a box-constrained local optimiser returns when the optimum lies outside: a corner of the encoded
+    box (public get_ndarray_bounds / from_ndarray)"""
+    import random as _random
+    r = _random.Random(seed)
+    x = np.array([b[r.randrange(2)] for b in hp_ranges.get_ndarray_bounds()], dtype=float)
+    return hp_ranges.from_ndarray(x)
+
+
+def corner_optimizer_class(seed):
+    from syne_tune.optimizer.schedulers.searchers.bayesopt.tuning_algorithms.bo_algorithm_components import (
+        LBFGSOptimizeAcquisition)
+    calls = [0]
+
+    class CornerOptimizer(LBFGSOptimizeAcquisition):
+        def optimize(self, candidate, predictor=None):
+            calls[0] += 1
+            return corner_of_box(self.hp_ranges, seed + calls[0])
+    return CornerOptimizer
+
+
+def small_finite_spec(rng):
+    """3..12 configurations"""
+    while True:
+        doms = [rng.choice([["randint", 0, rng.randint(1, 3)], ["choice", rng.choice([["a", "b"], ["x", "y", "z"]])],
+                            ["ordinal", [1, 2, 4], rng.choice([None, "equal"])],
+                            ["finrange", 0.0, 1.0, rng.randint(2, 3), False]]) for _ in range(rng.randint(1, 2))]
+        spec = [["h%d" % i, "dom", d] for i, d in enumerate(doms)]
+        size = true_size(build_space(spec))
+        if 3 <= size <= 12:
+            return spec, size
+
+
 SCHED_KINDS = ["fifo-random", "fifo-grid", "fifo-bayesopt", "hb-stopping-random", "hb-promotion-random",
                "hb-stopping-bayesopt", "hb-promotion-hypertune", "dehb", "pbt"]
 NO_REPEAT = {"fifo-random", "fifo-grid", "fifo-bayesopt", "hb-stopping-random", "hb-promotion-random",
@@ -599,6 +648,15 @@ FAST_GP = dict(opt_maxiter=3, opt_nstarts=1, num_init_candidates=15, debug_log=F
 
 def gen_sched_case(rng, kind, retype=False):
     gp = "bayesopt" in kind or "hypertune" in kind
+    if gp and rng.random() < 0.4:
+        # small finite space driven beyond its size, results partly NaN / inf (rejected as model data): the
+        # configurations of such trials must stay excluded
+        spec, size = small_finite_spec(rng)
+        n = size + 2
+        ops = [rng.choice(["suggest", "suggest", "complete", "complete", "error"]) for _ in range(n * 3)]
+        return dict(kind="sched", sched=kind, spec=spec, pts=gen_points(rng, spec, build_space(spec), retype),
+                    retype_trial_configs=False, seed=rng.randrange(10 ** 6), num_init_random=rng.choice([1, 2, 3]),
+                    max_suggest=n, ops=ops, metrics=gen_metrics(rng, n * 4, 0.4), directed="small_finite_nonfinite_metrics")
     finite = rng.random() < (0.3 if gp else 0.5)
     spec = gen_space_spec(rng, finite_only=finite, small=False, nmax=3 if gp else 4)
     space = build_space(spec)
@@ -607,7 +665,8 @@ def gen_sched_case(rng, kind, retype=False):
     return dict(kind="sched", sched=kind, spec=spec, pts=gen_points(rng, spec, space, retype),
                 retype_trial_configs=bool(retype and rng.random() < 0.4), seed=rng.randrange(10 ** 6),
                 num_init_random=rng.choice([1, 2, 3, 50]), max_suggest=n, ops=ops,
-                metrics=[round(rng.uniform(0, 1), 3) for _ in range(n * 4)])
+                corner_optimizer=bool(gp and rng.random() < 0.4),
+                metrics=gen_metrics(rng, n * 4, 0.15 if gp else 0.0))
 
 
 def make_scheduler(case, space):
@@ -618,6 +677,8 @@ def make_scheduler(case, space):
     if "bayesopt" in kind or "hypertune" in kind:
         so = dict(FAST_GP, num_init_random=case["num_init_random"])
         so.update(case.get("search_options") or {})
+        if case.get("corner_optimizer"):
+            so["local_minimizer_class"] = corner_optimizer_class(case["seed"])
     if kind == "hb-promotion-hypertune":
         so["model"] = "gp_independent"
     common = dict(metric="m", mode="min", random_seed=seed, points_to_evaluate=pts)
@@ -668,6 +729,11 @@ def run_sched_case(ctx, case):
                         break
                     raise
                 except KeyError as e:
+                    if kind == "hb-promotion-hypertune" and any(isinstance(m, str) for m in metrics):
+                        # HyperTune's independent-GP posterior has no state for a rung level whose observations were
+                        # all rejected as NaN / inf (posterior_state.py predict: KeyError): a crash, not a suggestion
+                        ctx.h("hypertune_keyerror_rung_without_finite_data", "cases")
+                        break
                     if sync and e.args == (None,):
                         # DEHB _de_mutation looks up a parent slot whose trial id is still None (results of the
                         # parent rung outstanding): a crash, not a suggestion (outside C06; noted in the evidence)
@@ -720,7 +786,7 @@ def run_sched_case(ctx, case):
         # as the Tuner does: every result goes through on_trial_result; a finished trial is then
         # completed with the result it reported last
         epoch[t] += 1
-        res = {"m": metrics[mi % len(metrics)], "epoch": epoch[t]}
+        res = {"m": float(metrics[mi % len(metrics)]), "epoch": epoch[t]}
         dec = sch.on_trial_result(tr, res)
         if dec == "STOP":
             sch.on_trial_remove(tr)
@@ -740,7 +806,13 @@ def run_sched_case(ctx, case):
         # trials started from scratch (PBT's exploit/explore trials are warm-started from a checkpoint and
         # do not come from the searcher's queue of initial points)
         k = min(len(scratch_cfgs), len(init))
-        if [hp_tuple(space, c) for c in scratch_cfgs[:k]] != [hp_tuple(space, c) for c in init[:k]]:
+
+        def same(a, b):      # DEHB keeps configurations encoded: decode(encode(x)) may differ from x in the last bits
+            if kind == "dehb" and isinstance(a, float) and isinstance(b, float):
+                return a == b or abs(a - b) <= 1e-9 * max(abs(a), abs(b))
+            return a == b
+        if not all(len(x) == len(y) and all(same(u, v) for u, v in zip(x, y)) for x, y in
+                   zip([hp_tuple(space, c) for c in scratch_cfgs[:k]], [hp_tuple(space, c) for c in init[:k]])):
             viol = ("initial_points_not_first", "first suggestions %s, expected %s" % (
                 [hp_tuple(space, c) for c in scratch_cfgs[:k]], [hp_tuple(space, c) for c in init[:k]]))
     if viol is None and kind in NO_REPEAT:
@@ -769,7 +841,7 @@ def gen_mb_case(rng, retype=False):
     ops = [rng.choice(["suggest", "suggest", "update", "fail"]) for _ in range(n * 2)]
     return dict(kind="mb", spec=spec, pts=gen_points(rng, spec, space, retype), seed=rng.randrange(10 ** 6),
                 num_init_random=rng.choice([0, 1, 2, 3, 30]), ops=ops, max_suggest=n,
-                metrics=[round(rng.uniform(0, 1), 3) for _ in range(20)])
+                corner_optimizer=rng.random() < 0.4, metrics=gen_metrics(rng, 20, 0.25))
 
 
 def run_mb_case(ctx, case):
@@ -786,7 +858,10 @@ def run_mb_case(ctx, case):
 
     class RecordingOptimizer(LBFGSOptimizeAcquisition):
         def optimize(self, candidate, predictor=None):
-            out = super().optimize(candidate, predictor=predictor)
+            if case.get("corner_optimizer"):
+                out = corner_of_box(self.hp_ranges, case["seed"] + len(pairs))
+            else:
+                out = super().optimize(candidate, predictor=predictor)
             pairs.append((dict(candidate), dict(out)))
             return out
 
@@ -826,9 +901,12 @@ def run_mb_case(ctx, case):
             elif op == "update":
                 t = sorted(running)[0]
                 tr = running.pop(t)
-                sch.on_trial_complete(tr, {"m": case["metrics"][mi % 20]})
+                mv = float(case["metrics"][mi % 20])
+                sch.on_trial_complete(tr, {"m": mv})
                 mi += 1
-                evs.append("(EUpd %s %s)" % (zlit(t), enc(tr.config)))
+                if np.isfinite(mv):
+                    evs.append("(EUpd %s %s)" % (zlit(t), enc(tr.config)))
+                # a NaN / infinite value is rejected as model data: the trial stays pending (no model event)
             elif op == "fail":
                 t = sorted(running)[-1]
                 tr = running.pop(t)
@@ -1015,6 +1093,9 @@ def report(ctx, viol, case, searcher):
     sig = dict(searcher=searcher, event=event, via=via)
     if event == "repeated_configuration":
         sig["finite_range_values_collide"] = finite_range_collides(build_space(case["spec"]))
+        if case.get("kind") == "sched":
+            sig["nonfinite_metrics"] = any(isinstance(m, str) for m in case.get("metrics", []))
+            sig["multi_fidelity"] = via.startswith("hb-")
     ctx.violation("property", "%s (%s): %s — %s" % (searcher, via, event, detail), case=case, signature=sig)
 
 
@@ -1055,6 +1136,18 @@ def run(ctx, replay=None):
             cases += [gen_sched_case(rng, kind, True) for _ in range(ctx.n(8 if gp else 30, 30 if gp else 250))]
         cases += [gen_mb_case(rng, True) for _ in range(ctx.n(24, 100))]
         cases += [gen_batch_case(rng) for _ in range(ctx.n(40, 300))]
+        # directed: initial points ON the bounds of domains whose bounds do not round-trip through log/exp (DEHB keeps
+        # them encoded), and a box-corner local optimiser on such domains (decoding of encoded 0.0 / 1.0)
+        odd = [["lr", "dom", ["loguniform", 1e-6, 0.1]], ["wd", "dom", ["loguniform", 1e-5, 1e-2]],
+               ["mom", "dom", ["uniform", 0.1, 0.7]], ["layers", "dom", ["randint", 1, 4]], ["epochs", "const", 9]]
+        cases.append(dict(kind="sched", sched="dehb", spec=odd, retype_trial_configs=False, seed=rng.randrange(10 ** 6),
+                          pts=[{"lr": 0.1, "wd": 1e-2, "mom": 0.7, "layers": 4}, {"lr": 1e-6, "wd": 1e-5, "mom": 0.1, "layers": 1},
+                               {"lr": 0.1, "wd": 1e-5}], num_init_random=2, max_suggest=6, ops=["suggest", "report"] * 8,
+                          metrics=gen_metrics(rng, 16)))
+        for sp in ([["lr", "dom", ["loguniform", 1e-6, 0.1]], ["wd", "dom", ["loguniform", 1e-5, 1e-2]]],
+                   [["a", "dom", ["loguniform", 0.3, 30.0]], ["b", "dom", ["reverseloguniform", 0.1, 0.9]]]):
+            cases.append(dict(kind="mb", spec=sp, pts=[], seed=rng.randrange(10 ** 6), num_init_random=1,
+                              ops=["suggest", "update"] * 6, max_suggest=6, corner_optimizer=True, metrics=gen_metrics(rng, 20)))
         cases += [dict(kind="pp", seed=rng.randrange(10 ** 9)) for _ in range(ctx.n(150, 1500))]
     rs_terms, rs_meta, gs_terms, gs_meta, prod_terms, prod_meta, mb_terms, mb_meta, pp_terms, pp_meta = ([] for _ in range(10))
     bt_terms, bt_meta = [], []
@@ -1066,6 +1159,10 @@ def run(ctx, replay=None):
                     ctx.h("retyped_point_values", "%s for %s" % (v["__t"], type(v["v"]).__name__))
         if case.get("retype_trial_configs"):
             ctx.h("retyped_trial_configs", case["sched"])
+        if case.get("corner_optimizer"):
+            ctx.h("corner_local_optimizer", case.get("sched", k))
+        if any(isinstance(m, str) for m in case.get("metrics", [])):
+            ctx.h("nonfinite_metrics", case.get("sched", k) + ("/small_finite" if case.get("directed") else ""))
         if k == "rs":
             term, viol, nontriv, info = run_rs_case(ctx, case)
             ctx.count(case, nontrivial=nontriv)
